@@ -200,6 +200,42 @@ static void hello_cb(void *ni) {
 
 /* ---------- op interpreter ---------- */
 #define MAXTOK 64
+/* ---- op `nest J <hex> [zero] k`: what the daemon's thread for interface J does while the thread that handles the NEXT `rx`
+ * op sleeps for the k-th time inside the core (the ports sleep with no lock held): it receives <hex> and handles it
+ * completely.  Interfaces are isolated, so the transcript must be what `rx I ..` followed by `rx J ..` gives: the nested
+ * reaction is captured and printed after the outer one, and the outer `end` line is corrected by the nested ledger delta.
+ * If the outer handler sleeps fewer than k times (or J is the outer interface) the frame is handled right afterwards. */
+static struct { int armed; int J; uint8_t *f; long n; bool zero; int k; int outer; } g_nest;
+static char *g_nest_buf; static size_t g_nest_len;
+static size_t g_nest_l0, g_nest_b0, g_nest_l1, g_nest_b1; static int g_nest_ran;
+static void show_state(int I, int full);
+static void bad(void);
+static void nest_fire(void) {
+    FILE *save = vp_out;
+    g_nest.armed = 0; vp_sleep_hook = NULL;
+    vp_ledger(&g_nest_l0, &g_nest_b0);
+    vp_out = open_memstream(&g_nest_buf, &g_nest_len);
+    fprintf(vp_out, "# rx %d ", g_nest.J); vp_hex(vp_out, g_nest.f, (size_t)g_nest.n); if (g_nest.n == 0) fputc('-', vp_out);
+    fprintf(vp_out, "%s\n", g_nest.zero ? " zero" : "");
+    int J = g_nest.J;
+    if (J < 0 || !vp_ifaces[J].used || (size_t)g_nest.n > vp_ifaces[J].mtu) { bad(); }
+    else {
+        vp_iface *it = &vp_ifaces[J];
+        memcpy(it->recvbuf, g_nest.f, (size_t)g_nest.n);
+        if (g_nest.zero) memset(it->recvbuf + g_nest.n, 0, it->bufsize - (size_t)g_nest.n);
+        parseFrame(it->recvbuf, it);
+        show_state(J, 0);
+    }
+    free(g_nest.f); g_nest.f = NULL;
+    fclose(vp_out);
+    vp_out = save;
+    vp_ledger(&g_nest_l1, &g_nest_b1);
+    g_nest_ran = 1;
+}
+static void nest_sleep_hook(void) {
+    if (g_nest.armed && g_nest.outer >= 0 && g_nest.J != g_nest.outer && --g_nest.k <= 0) nest_fire();
+}
+
 static void run_line(char *line) {
     char *tok[MAXTOK]; int nt = 0;
     for (char *p = strtok(line, " \t\r\n"); p && nt < MAXTOK; p = strtok(NULL, " \t\r\n")) tok[nt++] = p;
@@ -258,9 +294,30 @@ static void run_line(char *line) {
             switch_state_mapping(g_fsm[M], h->opcode, "rx");
             switch_state_session(g_fsm[S], h->opcode, "rx");
         }
+        if (!lin && g_nest.armed) { g_nest.outer = I; vp_sleep_hook = nest_sleep_hook; }
         parseFrame(it->recvbuf, it);
+        vp_sleep_hook = NULL;
         show_state(I, 0);
         if (lin) { show_fsm(M); show_fsm(S); }
+        if (!lin && (g_nest.armed || g_nest_ran)) {
+            if (g_nest.armed) {                            /* never fired: handled right after the outer frame */
+                vp_print_end(); vp_rotate_tx();
+                nest_fire();
+            } else {                                       /* fired inside: the outer `end` line without the nested delta */
+                vp_print_end_less(g_nest_l1, g_nest_l0, g_nest_b1, g_nest_b0); vp_rotate_tx();
+            }
+            fputs(g_nest_buf, vp_out); free(g_nest_buf); g_nest_buf = NULL; g_nest_ran = 0;
+        }
+    } else if (!strcmp(op, "nest")) {
+        int J = nt >= 2 ? parse_idx(tok[1], VP_MAX_IFACE) : -1;
+        bool zero = (nt == 5 && !strcmp(tok[3], "zero"));
+        uint64_t k = 0;
+        if (J < 0 || (nt != 4 && !zero) || !parse_u64(tok[nt - 1], &k) || k < 1 || k > 1000) { bad(); goto end; }
+        uint8_t *f; long n = parse_hex(tok[2], &f);
+        if (n < 0) { free(f); bad(); goto end; }
+        if (g_nest.armed) free(g_nest.f);
+        g_nest.armed = 1; g_nest.J = J; g_nest.f = f; g_nest.n = n; g_nest.zero = zero; g_nest.k = (int)k; g_nest.outer = -1;
+        fprintf(vp_out, "ok\n");
     } else if (!strcmp(op, "note")) {
         fprintf(vp_out, "ok\n");
     } else if (!strcmp(op, "relay")) {
